@@ -85,7 +85,7 @@ let () =
           (if r0 then "-" else via_dext p ms) lr rl,
         (let tu = c14_tuples e in
          let t = String.sub inst 0 1 in
-         let bits, sg = (match t with "i" -> 32, true | "u" -> 32, false | "l" -> 64, true | "s" -> 16, true | _ -> 64, false) in
+         let bits, sg = (match t with "i" -> 32, true | "u" -> 32, false | "l" -> 64, true | "s" -> 16, true | "c" -> 8, true | _ -> 64, false) in
          let zbits = z_of_int bits in
          let rank = List.length e in
          let all f = List.for_all f tu in
@@ -198,6 +198,35 @@ let () =
         Printf.sprintf "p=%s q=%s v=%s | ar %s | ara %s | sw %s ; %s | as %s ; %s | cv %s" (join pl) (join ql) (join_i v)
           (if num "arr" = 1 then arr a1 h1 m1 else "-") (if num "arr" = 1 then arr a2 h2 m2 else "-")
           (join ql) (join pl) (join pl) (join ql) (if a = "s2" then join pl else "-"), ""
+    | "rol" ->
+        let e = ext_of p e in
+        let lay = lay_of (str "lay") in
+        let m = mk lay e s in
+        let zb = z_of_int base in
+        let tu = c14_tuples e in
+        let cells mm = join (List.map (c14_mdspan_offset zb mm) tu) in
+        let pl = cells m in
+        let avals mm f = Printf.sprintf "ext=%s cs=%d v=%s" (join mm.c14_ext) (int_of_z (c14_required_span_size mm)) (join_i (List.map f tu)) in
+        (match lay with
+         | C14_Stride ->
+             Printf.sprintf "p=%s it=1 | st 1 %s | xo - | al - | tm -" pl (describe m)
+         | _ ->
+             let ms = c14_to_stride m in
+             let back = (match c14_view_convert lay (zb, ms) with Some v -> cells (snd v) | None -> "ASSERT") in
+             let other = (match lay with C14_Left -> C14_Right | _ -> C14_Left) in
+             let xo = if List.length e <= 1 then
+                 (match c14_view_convert other (zb, m) with
+                  | Some v -> cells (snd v) ^ " ; " ^ avals (snd v) (fun i -> 1000 + int_of_z (c14_mdspan_offset zb m i))
+                  | None -> "ASSERT") else "-" in
+             let from_view = avals m (fun i -> 1000 + int_of_z (c14_mdspan_offset zb m i)) in
+             Printf.sprintf "p=%s it=1 | xs %s ; %s ; %s | xo %s | al 1 %s ; %s ; %s ; %s | tm 1" pl (cells ms) back (describe ms) xo
+               (avals m (fun _ -> 5)) from_view (avals m (fun i -> 1000 + int_of_z (c14_map m i))) (avals m (fun _ -> 6))), ""
+    | "elt2" ->
+        let e = ext_of p e in
+        let m = mk (lay_of (str "lay")) e [] in
+        let tu = c14_tuples e in
+        let one tag = Printf.sprintf "%s cs=%d same=1 p=%s" tag (int_of_z (c14_required_span_size m)) (join (List.map (c14_mdspan_offset (z_of_int 1) m) tu)) in
+        String.concat " | " [one "dbl"; one "wide"; one "chr"], ""
     | "elt" ->
         let e = ext_of p e in
         let m = mk (lay_of (str "lay")) e [] in
@@ -221,7 +250,7 @@ let () =
           let m1 = mk lay e1 s and m2 = mk lay e2 s2 in
           let x = (z_of_int base, m1) and y = (z_of_int b2, m2) in
           let (x', y') = if f = "swap" then c14_view_swap x y else c14_view_assign x y in
-          Printf.sprintf "%s a %s ; b %s ; q eq0=%s ne=1 asg=1 dz=1 uni=%s str=%s au=%s ae=%s as=%s rank=%d rd=%d sr=1" tag (vstate x') (vstate y')
+          Printf.sprintf "%s a %s ; b %s ; q eq0=%s ne=1 asg=1 dz=1 uni=%s str=%s au=%s ae=%s as=%s rank=%d rd=%d sr=1 self=1" tag (vstate x') (vstate y')
             (b01 (c14_mapping_eqb m1 m2)) (b01 (c14_is_unique lay)) (b01 (c14_is_strided lay)) (b01 (c14_is_always_unique lay))
             (b01 (c14_is_always_exhaustive lay)) (b01 (c14_is_always_strided lay)) (List.length p) (int_of_nat (c14_rank_dynamic p)) in
         let astate (a : z list * c14_mapping) =
@@ -237,7 +266,7 @@ let () =
           let m1 = mk lay e1 [] and m2 = mk lay e2 [] in
           let x = (filled m1 7000, m1) and y = (filled m2 8000, m2) in
           let (x', y') = if f = "swap" then c14_array_swap x y else c14_array_assign x y in
-          Printf.sprintf "%s a %s ; b %s ; q eq0=%s eqc=1 ex=1 ptr=1 uni=%s exh=%s str=%s au=%s ae=%s as=%s rank=%d rd=%d" tag (astate x')
+          Printf.sprintf "%s a %s ; b %s ; q self=1 eq0=%s eqc=1 ex=1 ptr=1 uni=%s exh=%s str=%s au=%s ae=%s as=%s rank=%d rd=%d" tag (astate x')
             (if f = "move" then "-" else astate y') (b01 (c14_array_eqb (fun u w -> u = w) x y))
             (b01 (c14_is_unique lay)) (b01 (c14_is_exhaustive m1)) (b01 (c14_is_strided lay)) (b01 (c14_is_always_unique lay))
             (b01 (c14_is_always_exhaustive lay)) (b01 (c14_is_always_strided lay)) (List.length p) (int_of_nat (c14_rank_dynamic p)) in
@@ -278,6 +307,23 @@ let () =
         let m = mk (lay_of (str "lay")) [] [] in
         let st = c14_to_stride m in
         Printf.sprintf "D %s | C %s | O %s" (describe (mk C14_Stride [] [])) (describe st) (describe st), ""
+    | "p7tm" ->
+        let e = ext_of p e in
+        let m = mk (lay_of (str "lay")) e [] in
+        let tu = c14_tuples e in
+        let (st0, vw) = c14_to_mdspan (c14_mdarray_fill m (z_of_int 5)) in
+        let _, w = List.fold_left (fun (n, st) i ->
+          (n + 1, match c14_mdspan_set st (fst vw) (snd vw) i (z_of_int (7000 + n)) with Some st' -> st' | None -> st)) (0, st0) tu in
+        Printf.sprintf "p=%s w=%s" (join (List.map (c14_view_offset vw) tu)) (join w), ""
+    | "mdasb" ->
+        let e = ext_of p e in
+        let m = mk (lay_of (str "lay")) e [] in
+        let tu = c14_tuples e in
+        let n = int_of_z (c14_required_span_size m) in
+        let _, w = List.fold_left (fun (k, st) i ->
+          (k + 1, match c14_mdarray_set st m i (z_of_int (7000 + k)) with Some st' -> st' | None -> st)) (0, c14_mdarray_new m Z0) tu in
+        Printf.sprintf "cs=%d size=%d p=%s v=%s w=%s" (n + 2) (int_of_z (c14_md_size m)) (join (List.map (c14_map m) tu))
+          (join_i (List.map (fun _ -> 77) tu)) (join w), ""
     | "p6crit" ->
         let o = num "o" and len = num "len" in
         let l = iota len (fun k -> 1000 + o + k) and l3 = iota 3 (fun k -> 1000 + o + k) in
@@ -322,6 +368,7 @@ let () =
              "fw=" ^ join_i l ^ " rv=" ^ join_i (List.rev l)
          | "conv" -> desc None (Some sp)
          | "asg" -> desc ex (Some sp) ^ " ok=1"
+         | "tost" -> let l = Some (int_of_z len) in desc l (Some sp) ^ " | " ^ desc l (Some sp)
          | _ -> "UNKNOWN-SPAN-OP"), ""
     | _ -> "UNKNOWN-OP", "" in
     print_string out; print_string " ## "; print_endline spec
